@@ -39,7 +39,7 @@ VarTable == <<
 
 NV == Len(VarTable)
 Vars == 1..NV
-Kind(v) == VarTable[v].kind
+VKind(v) == VarTable[v].kind
 Required == {v \in Vars : VarTable[v].req}
 VarByName(nm) == LET S == {v \in Vars : VarTable[v].name = nm} IN IF S = {} THEN 0 ELSE CHOOSE v \in S : TRUE
 TableOK == /\ \A v, w \in Vars : VarTable[v].name = VarTable[w].name => v = w      \* names are distinct
@@ -59,11 +59,11 @@ Completed(e) == \A v \in Required : e[v] # <<>>
 LineOf(v, x) == VarTable[v].name \o <<EQ>> \o x \o <<NL>>
 RenderVar(e, v) ==
     IF e[v] = <<>> THEN <<>>
-    ELSE IF Kind(v) = "A" THEN Flatten([i \in 1..Len(e[v][1]) |-> LineOf(v, e[v][1][i])])
+    ELSE IF VKind(v) = "A" THEN Flatten([i \in 1..Len(e[v][1]) |-> LineOf(v, e[v][1][i])])
     ELSE LineOf(v, e[v][1])
 Render(e) == Flatten([v \in Vars |-> RenderVar(e, v)])
 \* number of printed lines = number of values
-ValueCount(e) == LET n(v) == IF e[v] = <<>> THEN 0 ELSE IF Kind(v) = "A" THEN Len(e[v][1]) ELSE 1
+ValueCount(e) == LET n(v) == IF e[v] = <<>> THEN 0 ELSE IF VKind(v) = "A" THEN Len(e[v][1]) ELSE 1
                      RECURSIVE Sum(_)
                      Sum(v) == IF v = 0 THEN 0 ELSE n(v) + Sum(v - 1)
                  IN Sum(NV)
@@ -77,7 +77,7 @@ ParseLine(line) ==
              x  == SubSeq(line, i + 1, Len(line))       \* everything after the first '='
              v  == VarByName(nm)
          IN IF v = 0 THEN <<"err", "ParseVariable", nm>>
-            ELSE IF Kind(v) = "I" THEN
+            ELSE IF VKind(v) = "I" THEN
                  (IF IsI64Text(x) THEN <<"ok", v, I64Print(I64Value(x))>> ELSE <<"err", "ParseInt", <<>>>>)
             ELSE <<"ok", v, x>>
 
@@ -86,7 +86,7 @@ ParseLines(ls, i, e) ==
     IF i > Len(ls) THEN <<"ok", e>>
     ELSE LET r == ParseLine(ls[i]) IN
          IF r[1] = "err" THEN r
-         ELSE ParseLines(ls, i + 1, IF Kind(r[2]) = "A" THEN PushVal(e, r[2], r[3]) ELSE SetVal(e, r[2], r[3]))
+         ELSE ParseLines(ls, i + 1, IF VKind(r[2]) = "A" THEN PushVal(e, r[2], r[3]) ELSE SetVal(e, r[2], r[3]))
 
 MissingFirst(e) == LET M == {v \in Required : e[v] = <<>>} IN CHOOSE v \in M : \A w \in M : v <= w
 
@@ -105,6 +105,22 @@ Causes(t) ==
         bad == { <<rs[i][2], rs[i][3]>> : i \in {j \in 1..Len(ls) : rs[j][1] = "err"} }
         present == { rs[i][2] : i \in {j \in 1..Len(ls) : rs[j][1] = "ok"} }
     IN bad \cup { <<"Incomplete", VarTable[v].name>> : v \in Required \ present }
+
+\* pkgbase() / pkgversion(): the parts of PKGNAME (variable 16) before / after its last '-';
+\* None when PKGNAME is unset, has no '-', or the part is empty
+PkgnameOf(e) == e[16]
+AccBase(e) == IF PkgnameOf(e) = <<>> THEN <<>>
+              ELSE LET nm == PkgnameOf(e)[1]  i == LastPos(nm, DASH) IN
+                   IF i <= 1 THEN <<>> ELSE <<SubSeq(nm, 1, i - 1)>>
+AccVer(e)  == IF PkgnameOf(e) = <<>> THEN <<>>
+              ELSE LET nm == PkgnameOf(e)[1]  i == LastPos(nm, DASH) IN
+                   IF i = 0 \/ i = Len(nm) THEN <<>> ELSE <<SubSeq(nm, i + 1, Len(nm))>>
+\* description_as_str(): the DESCRIPTION lines (variable 6) joined with newlines
+DescStr(e) == IF e[6] = <<>> THEN <<>>
+              ELSE LET ls == e[6][1]
+                       RECURSIVE J(_)
+                       J(i) == IF i > Len(ls) THEN <<>> ELSE IF i = Len(ls) THEN ls[i] ELSE ls[i] \o <<NL>> \o J(i + 1)
+                   IN <<J(1)>>
 
 \* canonical text: what Print produces (for the parse -> print direction of C07)
 Canonical(t) == LET r == Parse(t) IN r[1] = "ok" /\ Render(r[2]) = t
